@@ -25,8 +25,8 @@ func propTable() map[string]PropSpec {
 		"data races between the per-shard goroutines of getShardInfos/applyShardsInfo (errgroup closures run synchronously)", "the HTTP/JSON transport between shard.Shard and the sidecar (Shard.APIGet/APIPost are the observation points)"}
 	t["C01"] = PropSpec{
 		ID: "C01", Pkg: coordPkg, NativeDir: "coordinator",
-		Quick:    append([]HarnessRun{H("VGC", 8, 2, 2), H("VRelief", 4, 2, 1), H("VAssign", 4, 2, 2), H("VScaleDown", 4, 2, 1), H("VCycle", 12, 1, 1, 3), H("VCycle", 4, 2, 0, 2), H("VCycle", 6, 2, 1, 32), H("VTransfer", 4)}, lemmas...),
-		Thorough: append([]HarnessRun{H("VGC", 8, 2, 2), H("VGC", 8, 3, 1), H("VGC", 8, 3, 2), H("VRelief", 4, 2, 2), H("VRelief", 4, 3, 1), H("VAssign", 4, 2, 2), H("VAssign", 4, 3, 1), H("VScaleDown", 4, 2, 2), H("VScaleDown", 4, 3, 1), H("VCycle", 16, 1, 1, 3), H("VCycle", 8, 1, 2, 0), H("VCycle", 8, 2, 1, 0), H("VCycle", 4, 3, 0, 2)}, lemmas...),
+		Quick:    append([]HarnessRun{H("VGC", 8, 2, 2), H("VRelief", 4, 2, 1), H("VAssign", 4, 2, 2), H("VScaleDown", 4, 2, 1), H("VCycle", 12, 1, 1, 3), H("VCycle", 4, 2, 0, 2), H("VCycle", 6, 2, 1, 32), H("VTransfer", 4), {Entry: "VUpdateTarget", Pkg: "tkestack.io/kvass/pkg/shard", Args: []int{2}, Cosim: 8}}, lemmas...),
+		Thorough: append([]HarnessRun{H("VGC", 8, 2, 2), H("VGC", 8, 3, 1), H("VGC", 8, 3, 2), H("VRelief", 4, 2, 2), H("VRelief", 4, 3, 1), H("VAssign", 4, 2, 2), H("VAssign", 4, 3, 1), H("VScaleDown", 4, 2, 2), H("VScaleDown", 4, 3, 1), H("VCycle", 16, 1, 1, 3), H("VCycle", 8, 1, 2, 0), H("VCycle", 8, 2, 1, 0), H("VCycle", 4, 3, 0, 2), H("VTransfer", 4), {Entry: "VUpdateTarget", Pkg: "tkestack.io/kvass/pkg/shard", Args: []int{3}, Cosim: 8}}, lemmas...),
 		Required: []string{"gc.removed", "gc.rule1", "c01.reported", "c01.removed", "relief.moved", "assign.placed", "cycle.end"},
 		Prefixes: []string{"C01."},
 		Bounds:   "phase lemmas (gcTargets, alleviateShards, assignNoScrapingTargets, tryScaleDown) from arbitrary well-formed pre-states with S<=2 shards, K<=2 hashes (thorough S<=3); whole runOnce cycles at (S,K) = (1,1) with failing POSTs / ChangeScale and (2,0) (thorough + (1,2), (2,1), (3,0)); every map-iteration order and random pick; loop unwinding 12 with unwinding assertion",
@@ -93,8 +93,8 @@ func propTable() map[string]PropSpec {
 	t["C10"] = PropSpec{
 		ID: "C10", Pkg: sidePkg, NativeDir: "sidecar",
 		Quick:    []HarnessRun{{Entry: "VTMStep", Args: []int{2}, Cosim: 12}, {Entry: "VTMRestart", Args: []int{2}, Cosim: 6}},
-		Thorough: []HarnessRun{{Entry: "VTMStep", Args: []int{2}, Cosim: 16}, {Entry: "VTMStep", Args: []int{3}, Cosim: 16}, {Entry: "VTMRestart", Args: []int{3}, Cosim: 8}},
-		Required: []string{"tm.kept", "tm.new", "tm.becomes.idle", "tm.stays.idle", "restart.end", "restart.idle"},
+		Thorough: []HarnessRun{{Entry: "VTMStep", Args: []int{2}, Cosim: 16}, {Entry: "VTMStep", Args: []int{3}, Cosim: 16}, {Entry: "VTMRestart", Args: []int{2}, Cosim: 8}},
+		Required: []string{"tm.kept", "tm.new", "tm.becomes.idle", "tm.stays.idle", "restart.end", "restart.idle", "restart.second.acked", "restart.second.refused"},
 		Prefixes: []string{"C10."},
 		Bounds:   "one inductive step of UpdateTargets/updateStatus/updateIdleState/doCallbacks/saveTargets + Service.runtimeInfo from an arbitrary state satisfying the representation invariant, over a universe of K<=2 hashes (thorough 3) and 2 jobs, any request (adds, removals, state flips, repeats, empty, moves between jobs, an empty job list), failing callback; base case and restart through Load on the abstract store",
 		Assume:   sideAssume,
@@ -102,9 +102,9 @@ func propTable() map[string]PropSpec {
 	}
 	t["C09"] = PropSpec{
 		ID: "C09", Pkg: sidePkg, NativeDir: "sidecar",
-		Quick:    []HarnessRun{{Entry: "VStoreCrash", Args: []int{1}, Cosim: 12}, {Entry: "VTMRestart", Args: []int{2}, Cosim: 6}},
-		Thorough: []HarnessRun{{Entry: "VStoreCrash", Args: []int{2}, Cosim: 16}, {Entry: "VTMRestart", Args: []int{3}, Cosim: 8}},
-		Required: []string{"fs.write.ok", "fs.write.err.before", "fs.write.err.partial", "fs.kill.before", "fs.kill.partial", "store.old", "store.end", "restart.end"},
+		Quick:    []HarnessRun{{Entry: "VStoreCrash", Args: []int{1}, Cosim: 12}, {Entry: "VTMRestart", Args: []int{1}, Cosim: 6}, {Entry: "VTMRestart", Args: []int{2}, Cosim: 6}},
+		Thorough: []HarnessRun{{Entry: "VStoreCrash", Args: []int{2}, Cosim: 16}, {Entry: "VTMRestart", Args: []int{2}, Cosim: 8}},
+		Required: []string{"fs.write.ok", "fs.write.err.before", "fs.write.err.partial", "fs.kill.before", "fs.kill.partial", "store.old", "store.end", "restart.end", "restart.second.refused"},
 		Prefixes: []string{"C09."},
 		Bounds:   "two consecutive arbitrary assignments over K<=1 hashes (thorough 2), both states, empty sets; the second update interrupted by each store fault (error before / after a proper prefix, process killed before / part-way); then two consecutive restarts; old-version store file present or not",
 		Assume:   sideAssume,
@@ -150,37 +150,37 @@ func propTable() map[string]PropSpec {
 	}
 	t["C18"] = PropSpec{
 		ID: "C18", Pkg: k8sPkg, NativeDir: "shard/kubernetes",
-		Quick:    []HarnessRun{K("VChangeScale", 12, 1), K("VChangeScale", 12, 2), K("VShards", 6, 2), K("VShards", 6, 3), K("VReplicas", 8)},
-		Thorough: []HarnessRun{K("VChangeScale", 24, 0), K("VChangeScale", 24, 1), K("VChangeScale", 24, 2), K("VShards", 6, 1), K("VShards", 6, 2), K("VShards", 12, 3), K("VReplicas", 16)},
+		Quick:    []HarnessRun{K("VChangeScale", 12, 1), K("VChangeScale", 12, 2), K("VShards", 6, 2), K("VShards", 6, 3), K("VShards", 3, 12), K("VReplicas", 8)},
+		Thorough: []HarnessRun{K("VChangeScale", 24, 0), K("VChangeScale", 24, 1), K("VChangeScale", 24, 2), K("VShards", 6, 1), K("VShards", 6, 2), K("VShards", 12, 3), K("VShards", 3, 12), K("VReplicas", 16)},
 		Required: []string{"scale.noop", "scale.change", "scale.deleted", "shards.end", "replicas.end"},
 		Prefixes: []string{"C18."},
-		Bounds:   "ChangeScale with current and requested replica counts symbolic in [0,6] (incl. Spec.Replicas == nil), T <= 2 volume claim templates, symbolic deletion flag, Get / Update / Delete failures, IsNotFound arbitrary; Shards() with <= 3 pods in every list order and readiness pattern; Replicas() with 2 StatefulSets with symbolic status counters in [0,8]",
+		Bounds:   "ChangeScale with current and requested replica counts symbolic in [0,6] (incl. Spec.Replicas == nil), T <= 2 volume claim templates, symbolic deletion flag, Get / Update / Delete failures, IsNotFound arbitrary; Shards() with <= 3 pods in every list order and readiness pattern, and with 12 ready pods in ordinal, reverse and name order; Replicas() with 2 StatefulSets with symbolic status counters in [0,8]",
 		Assume:   []string{"client-go is replaced by fakes that record Get / Update / Delete / List calls (the server side of the API is not modelled)", "fmt.Sprintf of a symbolic ordinal is concretised by forking over [0,16]", "logging is a no-op"},
 		Outside:  []string{"replica counts above 6, more than 2 claim templates or 3 pods", "label-selector plumbing inside client-go", "the 2-minute not-ready grace period against real time (only its logic against the symbolic clock)"},
 	}
 	t["C03"] = PropSpec{
 		ID: "C03", Pkg: coordPkg, NativeDir: "coordinator",
-		Quick:    append([]HarnessRun{H("VAssign", 6, 2, 2), H("VCycle", 12, 1, 1, 0), H("VCycle", 6, 2, 0, 0)}, lemmas...),
+		Quick:    append([]HarnessRun{H("VAssign", 6, 2, 2), H("VCycle", 12, 1, 1, 0), H("VCycle", 6, 2, 0, 0), {Entry: "VUpdateTarget", Pkg: "tkestack.io/kvass/pkg/shard", Args: []int{2}, Cosim: 4}}, lemmas...),
 		Thorough: append([]HarnessRun{H("VAssign", 6, 3, 2), H("VCycle", 12, 1, 1, 0), H("VCycle", 8, 1, 2, 0), H("VCycle", 8, 2, 1, 8), H("VCycle", 8, 2, 1, 0)}, lemmas...),
-		Required: []string{"c03.placed", "c03.allinsync", "c03.stability.checked", "assign.placed"},
-		Prefixes: []string{"C03."},
+		Required: []string{"c03.placed", "c03.allinsync", "c03.stability.checked", "assign.placed", "shard.update.keys.same"},
+		Prefixes: []string{"C03.", "C01.shard.update."},
 		Bounds:   "single-cycle layer only: scale-up clause, at-most-once / normal-state placement, placement-when-room (K=1) and the no-op-from-a-converged-state clause on whole cycles at (S,K) = (1,1), (2,0) (thorough + (1,2), (2,1)); assignNoScrapingTargets lemma with S<=2 (3), K<=2",
 		Assume:   wfAssumptions,
 		Outside:  append([]string{"the multi-cycle quantifier (\"reaches within a bounded number of cycles\") is NOT covered: no closed loop of coordinator and sidecars over several cycles is explored; only necessary single-cycle consequences are decided", "stability is asserted for max-idle-time = 0 only"}, cycleOutside...),
 	}
 	t["C06"] = PropSpec{
 		ID: "C06", Pkg: coordPkg, NativeDir: "coordinator",
-		Quick:    []HarnessRun{H("VCycle", 12, 1, 1, 0), H("VCycle", 8, 2, 1, 8)},
-		Thorough: []HarnessRun{H("VCycle", 12, 1, 1, 0), H("VCycle", 8, 2, 1, 0), H("VCycle", 8, 2, 2, 8)},
-		Required: []string{"c06.lone", "c06.duplicate"},
-		Prefixes: []string{"C06."},
+		Quick:    []HarnessRun{H("VCycle", 12, 1, 1, 0), H("VCycle", 8, 2, 1, 8), {Entry: "VUpdateTarget", Pkg: "tkestack.io/kvass/pkg/shard", Args: []int{2}, Cosim: 4}},
+		Thorough: []HarnessRun{H("VCycle", 12, 1, 1, 0), H("VCycle", 8, 2, 1, 0), H("VCycle", 8, 2, 2, 8), {Entry: "VUpdateTarget", Pkg: "tkestack.io/kvass/pkg/shard", Args: []int{3}, Cosim: 4}},
+		Required: []string{"c06.lone", "c06.duplicate", "shard.update.keys.same"},
+		Prefixes: []string{"C06.", "C01.shard.update."},
 		Bounds:   "single-cycle progress lemmas from the states faults leave behind (a lone in_transfer copy; two copies on in-sync shards in every state / load / counter combination) on whole cycles at (S,K) = (1,1), (2,1) (thorough + (2,2) in sync)",
 		Assume:   wfAssumptions,
 		Outside:  append([]string{"the multi-cycle quantifier (recovery within a bounded number of cycles after the last fault) is NOT covered; each fault-produced state is decided as a single-cycle progress obligation", "fault injection at harness-owned boundaries over several cycles (sidecar restart, scale-down) is not explored"}, cycleOutside...),
 	}
 	t["C19"] = PropSpec{
 		ID: "C19", Pkg: coordPkg, NativeDir: "coordinator",
-		Quick:    []HarnessRun{H("VTwoReplicas", 8, 1, 1, 16, 8)},
+		Quick:    []HarnessRun{H("VTwoReplicas", 8, 1, 1, 16, 40)},
 		Thorough: []HarnessRun{H("VTwoReplicas", 8, 1, 1, 16, 8), H("VTwoReplicas", 8, 2, 1, 16, 8), H("VTwoReplicas", 8, 1, 1, 16, 0), H("VTwoReplicas", 8, 1, 1, 0, 8)},
 		Required: []string{"tworep.ran", "tworep.posted", "tworep.end"},
 		Prefixes: []string{"C19."},
@@ -191,11 +191,11 @@ func propTable() map[string]PropSpec {
 	explPkg := "tkestack.io/kvass/pkg/explore"
 	t["C20"] = PropSpec{
 		ID: "C20", Pkg: explPkg, LoadPkgs: []string{coordPkg}, NativeDir: "explore",
-		Quick:    []HarnessRun{{Entry: "VExploreKernel", Args: []int{1}, Cosim: 6}, {Entry: "VExploreKernel", Args: []int{2}, Cosim: 6}},
-		Thorough: []HarnessRun{{Entry: "VExploreKernel", Args: []int{1}, Cosim: 8}, {Entry: "VExploreKernel", Args: []int{2}, Cosim: 8}},
-		Required: []string{"explore.ok", "explore.failed", "explore.end"},
+		Quick:    []HarnessRun{{Entry: "VExploreKernel", Args: []int{1}, Cosim: 6}, {Entry: "VExploreKernel", Args: []int{2}, Cosim: 6}, {Entry: "VCycleExplore", Pkg: coordPkg, Subst: swr, Cosim: 2}},
+		Thorough: []HarnessRun{{Entry: "VExploreKernel", Args: []int{1}, Cosim: 8}, {Entry: "VExploreKernel", Args: []int{2}, Cosim: 8}, {Entry: "VCycleExplore", Pkg: coordPkg, Subst: swr, Cosim: 2}},
+		Required: []string{"explore.ok", "explore.failed", "explore.end", "explorecycle.ok", "explorecycle.failed"},
 		Prefixes: []string{"C20."},
-		Bounds:   "sequential kernel: Get / exploreOnce / UpdateTargets on a table of <= 2 targets with a scripted probe (success with symbolic counts < 2^30, failure, unknown job); estimate through the real UpdateScrapeResult in floating-point theory",
+		Bounds:   "sequential kernel: Get / exploreOnce / UpdateTargets on a table of <= 2 targets with a scripted probe (success with symbolic counts < 2^30, failure, unknown job); estimate through the real UpdateScrapeResult in floating-point theory; the first-assignment clause on the observable: two real coordination cycles (one in-sync shard with room, one target) around one scripted probe with the real Explore.Get as the coordinator's estimate source",
 		Assume:   []string{"the probe function (Explore.explore) is a scripted closure; logging and metrics are no-ops; the needExplore channel is a bounded FIFO"},
 		Outside:  []string{"the retry loop, the at-most-one-probe-in-flight clause and every interleaving with discovery updates (Explore.Run spawns goroutines; no thread model was built)", "real timing of the retry interval"},
 	}
